@@ -42,6 +42,8 @@ THEOREMS = [
     "C10_quiet_cancel_witness",
     "C10_labels_bind",
     "C10_label_capture_witness",
+    "C10_keeps_body_executor",
+    "C10_body_executor_witness",
 ]
 RULE = (
     "seeded random graphs (function nodes, macros nested to depth 3, workflows; 1-4 children per level, random data "
@@ -337,6 +339,10 @@ def gen_cases(rng, tier):
                "macro": i % 2 if lab != "fn" else 0}
         if tier == "thorough":
             yield {"kind": "labels", "label": lab, "exe": realk[1 + i % 3], "macro": (i + 1) % 2}
+    for _ in range(30 if tier == "quick" else 400):
+        ex = sorted(rng.sample(range(3), rng.randint(1, 3)))
+        yield {"kind": "fine", "n": 3, "exec": ex, "ckpt": rng.randrange(2),
+               "choices": [rng.randrange(3) for _ in range(rng.randint(1, 8))]}
     # executor objects: live / instructions with every sharing pattern, repeated submissions, any completion order
     for _ in range(40 if tier == "quick" else 600):
         yield _gen_pools(rng)
@@ -548,6 +554,18 @@ def corpus():
     yield {"kind": "extconn", "mode": "is"}
     yield {"kind": "for", "mode": "iv"}
     yield {"kind": "for", "mode": "is"}
+    # a for-node's `body_node_executor` (live / instructions) is an executor setting to be kept; the next run
+    # that rebuilds the body must submit the body jobs where the setting says
+    for mode in ("iv", "is"):
+        for body in ("none", "inst", "instr"):
+            for second in ("same", "local"):
+                yield {"kind": "for", "mode": mode, "body": body, "second": second}
+    # a child finishing on another thread, the parent's loop looking in between the two registrations / while
+    # the child's checkpoint is being written (the C01 fine interleavings, judged by C10's clauses)
+    for ck in (0, 1):
+        for choices in ([0, 0], [0, 1, 0], [0, 0, 0, 0], [1, 0, 0], [0, 2, 1]):
+            yield {"kind": "fine", "n": 3, "exec": [0], "ckpt": ck, "choices": choices}
+            yield {"kind": "fine", "n": 3, "exec": [0, 1], "ckpt": ck, "choices": choices}
     yield {"kind": "unused", "mode": "iv"}
 
 
@@ -951,6 +969,8 @@ def run_impl(case):
         return _run_extconn(case)
     if case["kind"] == "labels":
         return _run_labels(case)
+    if case["kind"] == "fine":
+        return _run_fine(case)
     return {"obs": [], "stats": {"malformed": 1}}
 
 
@@ -1339,20 +1359,141 @@ def _run_for(case):
                 "owner": all(c.owner is f for c in f.inputs), "running": [c.label for c in wf if c.running],
                 "failed": [c.label for c in wf if c.failed]}
 
-    res = "ok"
+    body = case.get("body")
+    rounds = []
+
+    def body_setting():
+        if body == "inst":
+            return CtlExe(sched, False, True, "pickle", [])
+        if body == "instr":
+            nc.REGISTRY["s"] = CtlExe(sched, False, True, "pickle", [])
+            return (nc.make_executor, ("s",), {})
+        return None
+
+    def one_run(wf, rnd):
+        before = len([t for t in sched.trace if "body_" in t])
+        res = "ok"
+        try:
+            with Instrument(sched):
+                wf.run()
+                late = sched.drain()
+        except Stuck as e:
+            res, late = f"stuck:{e}", 0
+        except Exception as e:  # noqa: BLE001
+            res, late = f"exc:{type(e).__name__}", 0
+        v = view(wf)
+        v.update({"res": res, "late": late, "body_jobs": len([t for t in sched.trace if "body_" in t]) - before,
+                  "rows": len([c for c in wf.f if c.label.startswith("body_")]),
+                  "body_kept": wf.f.body_node_executor is wf._c10_body or wf.f.body_node_executor == wf._c10_body,
+                  "body_on_nodes": all((c.executor is wf._c10_body or c.executor == wf._c10_body)
+                                       for c in wf.f if c.label.startswith("body_")),
+                  "by_value": wf.f.executor is not None and case["mode"] == "iv"})
+        return v
+
+    def session(with_exe):
+        wf = build(with_exe)
+        wf._c10_body = body_setting()
+        wf.f.body_node_executor = wf._c10_body
+        out = [one_run(wf, 0)]
+        if body is not None:
+            wf.l.inputs.user_input.value = ["p", "q", "r"]  # the next run rebuilds the body
+            if case.get("second") == "local":
+                wf.f.executor = None
+            out.append(one_run(wf, 1))
+        return out
+
+    with _CallbackLog() as cb:
+        impl_rounds = session(True)
+    twin_rounds = session(False)
+    return {"obs": [], "for": {"res": impl_rounds[0]["res"], "impl": impl_rounds[0], "twin": twin_rounds[0],
+                               "rounds": list(zip(impl_rounds, twin_rounds))},
+            "callback_errors": cb.records, "stats": {"for_cases": 1, f"for_body:{body}": 1}}
+
+
+def _run_fine(case):
+    """a chain n0 -> n1 -> n2 in a workflow, some children on a shared-memory executor whose done-callbacks run on
+    their OWN THREAD in two halves (execfine), optionally with a checkpoint back end whose save parks: whatever the
+    interleaving, the run must deliver what the local run delivers and leave nothing queued or running"""
+    from pyiron_workflow import Workflow
+    from pyiron_workflow.storage import StorageInterface
+
+    from . import nodes, nodes_c10 as nc
+    from .execfine import FineInstrument, FineScheduler
+    from .execsim import CtlExecutor, Stuck, term_str
+
+    nodes.reset()
+    nc.reset()
+
+    class CkptFine(FineScheduler):
+        """parks the callback thread inside the checkpoint save instead of after the first registration"""
+
+        def bookkeeping_call(self, which):
+            cb = self.in_callback()
+            if cb is None or which != "checkpoint":
+                return
+            cb.calls += 1
+            if cb.calls == 1:
+                self.first_calls.append((cb.k, which))
+                cb.parked.set()
+                cb.go.wait()
+
+    class ParkStorage(StorageInterface):
+        def __init__(self, sched):
+            self.sched = sched
+
+        def _save(self, node, filename, /, *a, **k):
+            self.sched.bookkeeping_call("checkpoint")
+
+        def _load(self, filename, /, *a, **k):
+            raise FileNotFoundError(filename)
+
+        def _has_saved_content(self, filename, /, *a, **k):
+            return False
+
+        def _delete(self, filename, /, *a, **k):
+            pass
+
+    sched = (CkptFine if case["ckpt"] else FineScheduler)(list(case["choices"]))
+
+    def build(with_exe):
+        wf = Workflow("w", autoload=None)
+        prev = None
+        for i in range(case["n"]):
+            n = nodes.term_node(i + 1, label=f"n{i}", a=("c1" if prev is None else prev))
+            wf.add_child(n)
+            if with_exe and i in case["exec"]:
+                n.executor = CtlExecutor(sched, "ctl")
+                if case["ckpt"]:
+                    n.checkpoint = ParkStorage(sched)
+            prev = n
+        _no_cache(wf)
+        return wf
+
+    def view(wf):
+        return {"outs": [term_str(c.outputs.o.value) for c in wf], "running": [c.label for c in wf if c.running] +
+                (["w"] if wf.running else []), "failed": [c.label for c in wf if c.failed],
+                "queued": len(wf.signal_queue)}
+
+    res, late = "ok", 0
     top = build(True)
     with _CallbackLog() as cb:
         try:
-            with Instrument(sched):
-                top.run()
+            with FineInstrument(sched):
+                try:
+                    top.run()
+                finally:
+                    returned = view(top)
+                    late = sched.release_all()
         except Stuck as e:
             res = f"stuck:{e}"
         except Exception as e:  # noqa: BLE001
             res = f"exc:{type(e).__name__}"
     twin = build(False)
     twin.run()
-    return {"obs": [], "for": {"res": res, "impl": view(top), "twin": view(twin)}, "callback_errors": cb.records,
-            "stats": {"for_cases": 1}}
+    return {"obs": [], "fine": {"res": res, "at_return": returned, "late": late, "after": view(top),
+                                "twin": view(twin), "tokens": list(sched.tokens)},
+            "callback_errors": cb.records, "stats": {"fine_cases": 1, "fine_halves": len(sched.tokens),
+                                                     f"fine_ckpt:{case['ckpt']}": 1}}
 
 
 def _run_unused(case):
@@ -1655,7 +1796,7 @@ def nontrivial(case, r):
     if case["kind"] == "pools":
         return any(row["res"] == "future" for row in r.get("rows", []))
     if case["kind"] != "tree":
-        return case["kind"] in ("for", "unused", "extconn") or (case["kind"] == "labels" and r["labels"]["created"])
+        return case["kind"] in ("for", "unused", "extconn", "fine") or (case["kind"] == "labels" and r["labels"]["created"])
     return bool(r.get("pokes")) or any(row["res"] == "future" for row in r.get("rows", []))
 
 
@@ -1868,6 +2009,21 @@ def oracle(case, r):
         return _oracle_for(case, r)
     if case["kind"] == "pools":
         return _oracle_pools(case, r)
+    if case["kind"] == "fine":
+        f = r["fine"]
+        out = []
+        at, tw = f["at_return"], f["twin"]
+        if f["res"] != "ok" or at["outs"] != tw["outs"]:
+            out.append(_fail("same-outputs", f"callbacks on their own thread, schedule {case['choices']} "
+                             f"(tokens {f['tokens']}): {f['res']}, when run() returned the outputs were {at['outs']}, "
+                             f"locally {tw['outs']}", kind="fine", ckpt=case["ckpt"]))
+        # (a callback still busy writing its checkpoint when run() returns is no defect: everything it had to
+        #  tell the parent has been told; what counts is what the run returned and what it left queued / running)
+        if at["running"] or at["queued"] or f["after"]["queued"] or f["after"]["running"]:
+            out.append(_fail("nothing-running", f"schedule {case['choices']}: when run() returned running={at['running']} "
+                             f"queued signals={at['queued']}, callbacks still parked={f['late']}, queued afterwards="
+                             f"{f['after']['queued']}", kind="fine", ckpt=case["ckpt"]))
+        return out
     if case["kind"] == "labels":
         L = r["labels"]
         out = []
@@ -2118,6 +2274,24 @@ def _oracle_for(case, r):
                          f"owns its channels {i['owner']}", kind="for"))
     if i["running"]:
         out.append(_fail("nothing-running", f"{i['running']}", kind="for"))
+    if case.get("body") is not None:
+        for k, (im, tw) in enumerate(f["rounds"]):
+            if im["res"] != "ok" or im["outs"] != tw["outs"] or im["z"] != tw["z"]:
+                out.append(_fail("same-outputs", f"for-node ({case}) run #{k}: {im['res']} {im['outs']} z={im['z']} vs "
+                                 f"local {tw['outs']} z={tw['z']}", kind="for"))
+            if not im["body_kept"]:
+                out.append(_fail("keeps", f"for-node ({case}) after run #{k}: body_node_executor is no longer the "
+                                 f"setting it was given", kind="for", field="body-executor"))
+            # where the body jobs go: nowhere without a setting; a live executor cannot travel with a copy;
+            # otherwise one job per row, on the executor the setting names
+            want = 0 if (case["body"] == "none" or (im["by_value"] and case["body"] == "inst")) else im["rows"]
+            if im["body_jobs"] != want or (not im["by_value"] and im["body_jobs"] != tw["body_jobs"]):
+                out.append(_fail("keeps", f"for-node ({case}) run #{k}: {im['body_jobs']} body jobs reached the body "
+                                 f"executor, expected {want} (all-local twin: {tw['body_jobs']}, rows {im['rows']})",
+                                 kind="for", field="body-jobs"))
+            if im["late"] or im["running"]:
+                out.append(_fail("nothing-running", f"for-node ({case}) run #{k}: late={im['late']} {im['running']}",
+                                 kind="for"))
     return out
 
 
